@@ -702,6 +702,12 @@ def _r17_7(res, P, cfgname):
                         d = ctx.du.single_def(pl["l"])
                         if d and d[1] != 't' and d[2]["rv"]["k"] == "use":
                             src = mir.op_place(d[2]["rv"]["a"])
+                        elif d and d[1] == 't' and (mir.callee_path(d[2]) or "") == "<dashu_int::repr::Repr as core::clone::Clone>::clone" and d[2]["a"]:
+                            # `UBig(x.0.clone())`: the clone of a field has the sign of the field
+                            al = mir.op_place(d[2]["a"][0])
+                            d2 = ctx.du.single_def(al["l"]) if al is not None and not al.get("p") else None
+                            if d2 and d2[1] != 't' and d2[2]["rv"]["k"] == "ref":
+                                src = d2[2]["rv"]["p"]
                     elif pl is not None:
                         src = pl
                     if src is not None and [e.get("n") for e in src.get("p", []) if e["k"] == "f"] == ["0"] and positive_edge(fn, i, src["l"]):
